@@ -1,12 +1,42 @@
 import Driver.Wire
 import Driver.WireSpec
-/- property C01: model mode = the shared wire driver; spec mode = Driver.WireSpec.spec01 -/
+import Driver.CursorDrv
+/- property C01: model mode = the shared wire driver + the stream-model driver; spec mode = WireSpec.spec01 -/
 namespace Driver.C01
 open Driver
 
-def step := Wire.step
-def initModel : Wire.State := {}
-def specStep := WireSpec.spec01
+structure St where
+  wire : Wire.State := {}
+  cur : CursorDrv.St := {}
+
+def step (st : St) (line : String) : St × String :=
+  let ws := words line
+  match ws with
+  | w :: _ =>
+    if CursorDrv.isCursorOp w then
+      let (c', o) := CursorDrv.step st.cur ws
+      ({ st with cur := c' }, o)
+    else
+      let (w', o) := Wire.step st.wire line
+      ({ st with wire := w' }, o)
+  | [] => (st, "bad-op")
+
+def initModel : St := {}
+
+/-- stream ops: the oracle is `cursor_safe` itself — only malformed_packet / serialization_error may be thrown -/
+def specStep (st : WireSpec.SState) (line : String) : WireSpec.SState × String :=
+  match line.splitOn " ||| " with
+  | [op, out0] =>
+    let out := out0.trimAscii.toString
+    match words op with
+    | w :: _ =>
+      if CursorDrv.isCursorOp w then
+        if out.startsWith "ok" || out == "throw malformed_packet" || out == "throw serialization_error" then (st, "ok")
+        else (st, s!"violates stream-outcome {out}")
+      else WireSpec.spec01 st line
+    | [] => (st, "bad-line")
+  | _ => (st, "bad-line")
+
 def initSpec : WireSpec.SState := {}
 
 end Driver.C01
